@@ -231,7 +231,10 @@ def r5_no_rebuild_without_change(ctx):
     repo = ctx.repo
     oc = A.function_class(repo)
     build = A.build_method(repo)
-    upd = A.update_method(repo)
+    try:
+        upd = A.update_method(repo)
+    except AnalysisError:
+        upd = None  # its absence is reported by C05.R2 / C16.R5
     from .common import holds_at
 
     n = 0
